@@ -73,6 +73,12 @@ def run(rep):
             try:
                 r, fired = _child(rep, d)
                 want = m["expect"]
+                if want == "SILENT":
+                    # a behaviour-preserving edit: the check must neither report a violation nor fail to analyse
+                    bad = bool(fired) or "ANALYSIS-ERROR" in r.stdout
+                    results.append(dict(name=m["name"], status="FALSE-ALARM" if bad else "silent", fired=sorted(set(fired))[:6],
+                                        why=(r.stdout.strip().splitlines() or [""])[-1][:200] if bad else ""))
+                    continue
                 hit = any(f.startswith(want) for f in fired)
                 if "ANALYSIS-ERROR" in r.stdout and not hit:
                     results.append(dict(name=m["name"], status="mutant-does-not-build", why=r.stdout.strip().splitlines()[-1][:200]))
@@ -84,7 +90,10 @@ def run(rep):
         shutil.rmtree(d, ignore_errors=True)
     rep.selftest = dict(mutants=len(mutants), results=results)
     for r_ in results:
-        print(f"  selftest {r_['name']}: {r_['status']}" + (f" (fired: {r_.get('fired')})" if r_["status"] == "MISSED" else ""))
+        print(f"  selftest {r_['name']}: {r_['status']}" + (f" (fired: {r_.get('fired')} {r_.get('why', '')})" if r_["status"] in ("MISSED", "FALSE-ALARM") else ""))
     missed = [r_ for r_ in results if r_["status"] == "MISSED"]
     if missed:
         raise AnalysisError("selftest: mutant(s) not detected: " + ", ".join(r_["name"] for r_ in missed))
+    fa = [r_ for r_ in results if r_["status"] == "FALSE-ALARM"]
+    if fa:
+        raise AnalysisError("selftest: behaviour-preserving edit(s) reported: " + ", ".join(f"{r_['name']} {r_.get('fired')}" for r_ in fa))
